@@ -33,6 +33,10 @@ def assume_sign(M, atom, s):
             sg = sign_of(d, atom, s)
             if sg is not None and sg != 0:
                 return Poly.const(1 if sg > 0 else 0)
+        if a.kind in ("fabs", "sign") and isinstance(a.key[0], Poly):
+            sg = sign_of(a.key[0], atom, s)
+            if sg is not None and sg != 0:
+                return a.key[0].scale(sg) if a.kind == "fabs" else Poly.const(sg)
         return None
     return MatVal(M.r, M.c, [[deep_subs(p, f) if p.t else p for p in row] for row in M.cells], M.kind)
 
@@ -126,6 +130,27 @@ def quat_log_principal(w, rep, rule, prefix=""):
             rep.incomplete(rule, inst, "cannot decide: %s" % d, where=W)
 
 
+def roundtrip_cases(w, rep, inst, got, want, where, msg):
+    """Round trip decided on every selection of the if_else conditions and every sign of symbols under fabs/sign."""
+    bs = branches(got, limit=3)
+    if bs is None:
+        rep.incomplete("C03.roundtrip", inst, "too many if_else conditions", where=where)
+        return
+    allok = True
+    for desc, gb in bs:
+        v, d = decide_by_cases(gb, want)
+        if v == EQUAL:
+            continue
+        allok = False
+        label = inst if desc == "-" else "%s [selection %s]" % (inst, desc[:70])
+        if v == DIFFERENT:
+            rep.fail("C03.roundtrip", label, "%s: %s" % (msg, d), where=where)
+        else:
+            rep.incomplete("C03.roundtrip", label, "cannot decide: %s" % d, where=where)
+    if allok:
+        rep.ok("C03.roundtrip", inst, fact={"selections": len(bs)})
+
+
 def check_logs(w, rep, tier):
     so3 = w.G("so3")
     # ---- API for all groups
@@ -179,12 +204,12 @@ def check_logs(w, rep, tier):
         X, xp = w.fresh(G2, "X")
         ok, back = guarded(w, rep, "C03.roundtrip", "SE2 exp(log(X))", lambda: closed(w, w.param(w.call(G2, "exp", w.call(X, "log")))))
         if ok:
-            verdict(rep, "C03.roundtrip", "SE2: exp(log(X)) = X", back, xp, (), w.method_where(G2, "log")[:2], "SE(2) log does not invert exp")
+            roundtrip_cases(w, rep, "SE2: exp(log(X)) = X", back, xp, w.method_where(G2, "log")[:2], "SE(2) log does not invert exp")
         se2 = w.G("se2")
         y = w.sym("y", 3)
         ok, back = guarded(w, rep, "C03.roundtrip", "SE2 log(exp(x))", lambda: closed(w, w.param(w.call(w.call(G2, "exp", w.elem(se2, y)), "log"))))
         if ok:
-            verdict(rep, "C03.roundtrip", "SE2: log(exp(x)) = x", back, y, (), w.method_where(G2, "log")[:2], "SE(2) log does not invert exp")
+            roundtrip_cases(w, rep, "SE2: log(exp(x)) = x", back, y, w.method_where(G2, "log")[:2], "SE(2) log does not invert exp")
         for nm in ("SO2", "R2", "R3"):
             G = w.G(nm)
             X, xp = w.fresh(G, "X")
